@@ -109,7 +109,7 @@ func drawC09One(t *rapid.T) c09One {
 		}
 		if rapid.Bool().Draw(t, "named") {
 			a.Name = rapid.SampledFrom([]string{"English", "Deutsch", "commentary"}).Draw(t, "name")
-			a.Language = rapid.SampledFrom([]string{"en", "de", ""}).Draw(t, "lang")
+			a.Language = rapid.SampledFrom([]string{"en", "de", "", "pt-BR", "zh-Hans"}).Draw(t, "lang")
 		}
 		a.IsDefault = i == userDefault
 		tracks = append(tracks, a)
@@ -193,19 +193,36 @@ func drawC09One(t *rapid.T) c09One {
 			if spec.Codec == "opus" {
 				per = 960
 			}
+			// audio may reach the muxer late: it is written (and paced) lag seconds after its time
+			// stamps, i.e. after video units that are later in media time
+			lag := rapid.SampledFrom([]float64{0, 0, 0.03, 0.08, 0.15}).Draw(t, "audioLag")
 			for {
 				m := float64(ts-base) / float64(rate)
 				if m > total {
 					break
 				}
-				op := mux.Op{Track: ti, TS: ts, Size: rapid.IntRange(8, 20).Draw(t, "asize"), N: 1, OpusC: 3, OpusF: 1}
+				// Opus TOC config 1: 20 ms packets (960 ticks), so that consecutive writes do not overlap
+				op := mux.Op{Track: ti, TS: ts, Size: rapid.IntRange(8, 20).Draw(t, "asize"), N: 1, OpusC: 1, OpusF: 1}
 				if variant != mux.VariantMPEGTS || true {
 					op.N = rapid.SampledFrom([]int{1, 1, 2}).Draw(t, "n")
 				}
+				adv := per * int64(op.N)
+				if spec.Codec == "opus" {
+					op.N = rapid.SampledFrom([]int{1, 1, 2, 3}).Draw(t, "nOpus")
+					adv = per * int64(op.N)
+					if op.N > 1 && rapid.Bool().Draw(t, "opusMix") {
+						// packets of different durations inside one write
+						op.OpusMix = true
+						adv = 0
+						for k := 0; k < op.N; k++ {
+							adv += mux.OpusPacketTicks(mux.OpusMixConfig(op.OpusC, k), 1)
+						}
+					}
+				}
 				op.NTP = ntpBase + ntpShift(m) + (ts-base)*1_000_000_000/rate
 				ops = append(ops, op)
-				med = append(med, m)
-				ts += per * int64(op.N)
+				med = append(med, m+lag)
+				ts += adv
 			}
 		}
 		all = append(all, ops)
@@ -371,6 +388,22 @@ func runC09One(one c09One) c09Result {
 	if strings.HasPrefix(fmt.Sprint(r.WaitErr), "HARNESS:") {
 		res.violation = "client did not end after Close"
 		return res
+	}
+	if r.WaitReturned && r.WaitErr != nil {
+		msg := r.WaitErr.Error()
+		if len(msg) > 50 {
+			msg = msg[:50]
+		}
+		res.labels = append(res.labels, fmt.Sprintf("client-ended:v%d:%s", cfg.Variant, msg))
+	}
+	if r.WaitReturned && r.WaitErr != nil {
+		// the script ends, so the client eventually finds no next segment; any other error of its
+		// own on a stream a Muxer produced from a well-formed script is a defect
+		msg := r.WaitErr.Error()
+		if !strings.Contains(msg, "next segment not found or not ready yet") && !strings.Contains(msg, "playback is too late") && !strings.Contains(msg, "terminated") {
+			res.violation = fmt.Sprintf("the client stopped on its own with %q while reading a well-formed stream", msg)
+			return res
+		}
 	}
 	if r.OnTracksCalls == 0 {
 		// the client may legitimately stop early (e.g. the next segment was late); but failing before
